@@ -680,6 +680,11 @@ impl Doc for Node<Option<Primary>> {
                             ))
                         })?
                         .0
+                        // a trailing comma is not printed, but its comment is
+                        .append(get_dropped_token_comment_doc(get_trailing_comma_comment(
+                            el.last()?.loc.as_ref().map(|loc| loc.span),
+                            &mut context.tokens,
+                        )?))
                 },
                 add_comment(
                     RcDoc::text("["),
@@ -722,7 +727,12 @@ impl Doc for Node<Option<Primary>> {
                                 v,
                             ))
                         })?
-                        .0;
+                        .0
+                        // a trailing comma is not printed, but its comment is
+                        .append(get_dropped_token_comment_doc(get_trailing_comma_comment(
+                            ri.last()?.loc.as_ref().map(|loc| loc.span),
+                            &mut context.tokens,
+                        )?));
                     RcDoc::line().append(inits).append(RcDoc::line()).group()
                 },
                 add_comment(
@@ -794,7 +804,12 @@ impl Doc for Node<Option<MemAccess>> {
                                 ))
                             },
                         )?
-                        .0;
+                        .0
+                        // a trailing comma is not printed, but its comment is
+                        .append(get_dropped_token_comment_doc(get_trailing_comma_comment(
+                            args.last()?.loc.as_ref().map(|loc| loc.span),
+                            &mut context.tokens,
+                        )?));
                     RcDoc::line_()
                         .append(args)
                         .nest(context.config.indent_width)
@@ -898,7 +913,14 @@ impl Doc for Node<Option<Policy>> {
         let vars = &policy.variables;
         let principal_doc = vars.first()?.to_doc(context)?;
         let action_doc = vars.get(1)?.to_doc(context)?;
-        let resource_doc = vars.get(2)?.to_doc(context)?;
+        // a trailing comma in the scope is not printed, but its comment is
+        let resource_doc = vars
+            .get(2)?
+            .to_doc(context)?
+            .append(get_dropped_token_comment_doc(get_trailing_comma_comment(
+                vars.get(2)?.loc.as_ref().map(|loc| loc.span),
+                &mut context.tokens,
+            )?));
         let vars_doc = if vars.get(0..3)?.iter().all(|v| {
             if let Some(v) = v.as_inner() {
                 v.ineq.is_none() && v.entity_type.is_none()
@@ -976,7 +998,7 @@ impl Doc for Node<Option<Policy>> {
                 .append(vars_doc)
                 .append(add_comment(
                     RcDoc::text(")"),
-                    get_comment_after_end(
+                    get_comment_after_end_skip_comma(
                         vars.get(2)?.loc.as_ref().map(|loc| loc.span),
                         &mut context.tokens,
                     )?,
